@@ -76,6 +76,80 @@ fn values_for(lo: i128, hi: i128, exhaustive: bool, r: &mut Lcg, nrand: usize) -
     v
 }
 
+/// Presence probes ("autoref specialisation"): `(&Probe::<T, S>::new()).attempt(x)` calls
+/// `T::try_from(x)` when the crate under test implements `TryFrom<S> for T` (directly or through
+/// `From`), and returns `None` when it does not - so conversions that do not exist in the pinned
+/// tree are exercised as soon as a change adds them, while the harness still compiles without them.
+pub struct Probe<T, S>(core::marker::PhantomData<(T, S)>);
+impl<T, S> Probe<T, S> {
+    pub fn new() -> Self {
+        Probe(core::marker::PhantomData)
+    }
+}
+pub trait GetI64 {
+    fn getv(&self) -> i64;
+}
+macro_rules! impl_getv {
+    ($($T:ty),*) => { $(impl GetI64 for $T { fn getv(&self) -> i64 { self.get() as i64 } })* };
+}
+impl_getv!(U4, U7, U14, Channel, KeyNumber, ControllerNumber);
+pub trait HasTry<S> {
+    fn attempt(&self, x: S) -> Option<Option<i64>>;
+}
+impl<T: TryFrom<S> + GetI64, S> HasTry<S> for Probe<T, S> {
+    fn attempt(&self, x: S) -> Option<Option<i64>> {
+        Some(T::try_from(x).ok().map(|y| y.getv()))
+    }
+}
+pub trait NoTry<S> {
+    fn attempt(&self, _x: S) -> Option<Option<i64>> {
+        None
+    }
+}
+impl<T, S> NoTry<S> for &Probe<T, S> {}
+
+/// primitive sources that have no conversion in the pinned tree
+macro_rules! probe_prims {
+    ($w:expr, $r:expr, $nrand:expr, $T:ty, $tc:expr, [$(($p:ty, $pc:expr, $ex:expr)),*]) => {
+        $(
+            {
+                let (lo, hi) = prim_range!($p);
+                for v in values_for(lo, hi, $ex, $r, $nrand) {
+                    let x = v as $p;
+                    let (res, al) = guarded(|| (&Probe::<$T, $p>::new()).attempt(x));
+                    let (cls, vv) = enc(v);
+                    let (ok, val) = match res {
+                        Some(Some(Some(y))) => (1, y),
+                        Some(Some(None)) => (0, -1),
+                        Some(None) => break,          // no such conversion
+                        None => (PANIC, PANIC),
+                    };
+                    $w.push(&[0, CFG, $tc, $pc, cls, vv, ok, val, al as i64]);
+                }
+            }
+        )*
+    };
+}
+
+/// every ordered pair of distinct restricted types
+macro_rules! probe_newtypes {
+    ($w:expr, $T:ty, $tc:expr, [$(($S:ty, $sc:expr, $smax:expr)),*]) => {
+        $(
+            for v in 0..=$smax {
+                let x = <$S>::new(v as _);
+                let (res, al) = guarded(|| (&Probe::<$T, $S>::new()).attempt(x));
+                let (ok, val) = match res {
+                    Some(Some(Some(y))) => (1, y),
+                    Some(Some(None)) => (0, -1),
+                    Some(None) => break,
+                    None => (PANIC, PANIC),
+                };
+                $w.push(&[2, CFG, $tc, 20 + $sc, 0, v as i64, ok, val, al as i64]);
+            }
+        )*
+    };
+}
+
 macro_rules! prim_range {
     ($p:ty) => {
         (<$p>::MIN as i128, if (<$p>::MAX as u128) > (i128::MAX as u128) { i128::MAX } else { <$p>::MAX as i128 })
@@ -238,6 +312,38 @@ macro_rules! basics {
             }
         }
         $w.push(&[9, CFG, $tc, <$T>::MIN.get() as i64, <$T>::MAX.get() as i64, <$T>::default().get() as i64]);
+        // new_unchecked within its contract (every valid value)
+        for v in 0..=$max {
+            let (res, al) = guarded(|| unsafe { <$T>::new_unchecked(v as $repr) }.get() as i64);
+            $w.push(&[10, CFG, $tc, v as i64, res.unwrap_or(PANIC), al as i64]);
+        }
+        // formatting with flags, width, fill, alignment, sign; Debug and pretty Debug
+        for v in [0 as $repr, 1, 9, 10, ($max / 2) as $repr, ($max - 1) as $repr, $max as $repr] {
+            let x = <$T>::new(v);
+            macro_rules! one {
+                ($code:expr, $f:literal) => {{
+                    let mut buf = Buf { b: [0; 64], n: 0 };
+                    let (res, al) = guarded(|| {
+                        let _ = write!(buf, $f, x);
+                    });
+                    let mut row = vec![11, CFG, $tc, v as i64, $code, if res.is_some() { al as i64 } else { PANIC }, buf.n as i64];
+                    row.extend(buf.b[..buf.n].iter().map(|b| *b as i64));
+                    $w.push(&row);
+                }};
+            }
+            one!(0, "{:#}");
+            one!(1, "{:5}");
+            one!(2, "{:<6}");
+            one!(3, "{:^7}");
+            one!(4, "{:>#8}");
+            one!(5, "{:07}");
+            one!(6, "{:+}");
+            one!(7, "{:*^9}");
+            one!(8, "{:.3}");
+            one!(20, "{:?}");
+            one!(21, "{:#?}");
+            one!(22, "{:10?}");
+        }
     };
 }
 
@@ -282,6 +388,19 @@ fn strings(tier: &str, r: &mut Lcg) -> Vec<String> {
               "+128", "+16383", "+16384", "-0", "-1", "+-1", "++1", "1+", "1 ", " 1", "0x10", "1e2", "1.0", "١٢", "１２"] {
         out.push(s.to_string());
     }
+    // characters outside ASCII whose code point, truncated to a byte, is a digit or a sign; other scripts' digits
+    for base in [0x100u32, 0x200, 0x300, 0x1f600, 0x10000, 0xff00, 0x600, 0x6c0] {
+        for c in "0123456789+-".chars() {
+            if let Some(ch) = char::from_u32(base + c as u32) {
+                for t in [format!("{ch}"), format!("{ch}27"), format!("1{ch}"), format!("+{ch}"), format!("{ch}{ch}"), format!("12{ch}3")] {
+                    out.push(t);
+                }
+            }
+        }
+    }
+    for t in ["\u{0661}\u{0662}", "\u{ff11}\u{ff12}", "\u{0967}", "1\u{200b}2", "\u{feff}12", "12\u{0}", "\u{0}12", "1\t", "\n1", "1_0", "0b1", "0o7", "1,0", "٣"] {
+        out.push(t.to_string());
+    }
     for n in [1usize, 2, 5, 10, 20, 24] {
         for tail in ["0", "7", "15", "16", "127", "128", "16383", "16384"] {
             out.push(format!("{}{}", "0".repeat(n), tail));
@@ -324,6 +443,8 @@ pub fn table_ints(dir: &str, tier: &str, seed: u64, per: usize) -> (usize, u64) 
     nt_try_from!(w, U4, 0, U7, 1, 127);
     nt_from!(w, U4, 0, Channel, 3, 15);
     basics!(w, U4, 0, u8, 15, strs, small);
+    probe_prims!(w, &mut r, nrand, U4, 0, [(i8, 1, true)]);
+    probe_newtypes!(w, U4, 0, [(U7, 1, 127), (U14, 2, 16383), (Channel, 3, 15), (KeyNumber, 4, 127), (ControllerNumber, 5, 127)]);
     // ---- U7 (1)
     try_from_prims!(w, &mut r, nrand, U7, 1, [(u8, 0, true), (u16, 2, true), (i16, 3, true), (u32, 4, false), (i32, 5, false),
         (u64, 6, false), (i64, 7, false), (u128, 8, false), (i128, 9, false), (usize, 10, false), (isize, 11, false)]);
@@ -333,6 +454,8 @@ pub fn table_ints(dir: &str, tier: &str, seed: u64, per: usize) -> (usize, u64) 
     nt_from!(w, U7, 1, KeyNumber, 4, 127);
     nt_from!(w, U7, 1, ControllerNumber, 5, 127);
     basics!(w, U7, 1, u8, 127, strs, mid);
+    probe_prims!(w, &mut r, nrand, U7, 1, [(i8, 1, true)]);
+    probe_newtypes!(w, U7, 1, [(U4, 0, 15), (U14, 2, 16383), (Channel, 3, 15), (KeyNumber, 4, 127), (ControllerNumber, 5, 127)]);
     // ---- U14 (2)
     // i8 -> U14 is driven through try_from: it exists whether the crate offers From<i8> (then the
     // blanket impl makes it infallible) or a checked TryFrom<i8>
@@ -343,24 +466,32 @@ pub fn table_ints(dir: &str, tier: &str, seed: u64, per: usize) -> (usize, u64) 
     nt_from!(w, U14, 2, U4, 0, 15);
     nt_from!(w, U14, 2, U7, 1, 127);
     basics!(w, U14, 2, u16, 16383, strs, big);
+    probe_prims!(w, &mut r, nrand, U14, 2, [(i16, 3, true), (isize, 11, false)]);
+    probe_newtypes!(w, U14, 2, [(U4, 0, 15), (U7, 1, 127), (Channel, 3, 15), (KeyNumber, 4, 127), (ControllerNumber, 5, 127)]);
     // ---- Channel (3)
     try_from_prims!(w, &mut r, nrand, Channel, 3, [(u8, 0, true), (u16, 2, true), (i16, 3, true), (u32, 4, false), (i32, 5, false),
         (u64, 6, false), (i64, 7, false), (u128, 8, false), (i128, 9, false), (usize, 10, false), (isize, 11, false)]);
     to_prims!(w, Channel, 3, 15, [(u8, 0), (i8, 1), (u16, 2), (i16, 3), (u32, 4), (i32, 5), (u64, 6), (i64, 7), (u128, 8), (i128, 9), (usize, 10), (isize, 11)]);
     nt_from!(w, Channel, 3, U4, 0, 15);
     basics!(w, Channel, 3, u8, 15, strs, small);
+    probe_prims!(w, &mut r, nrand, Channel, 3, [(i8, 1, true)]);
+    probe_newtypes!(w, Channel, 3, [(U4, 0, 15), (U7, 1, 127), (U14, 2, 16383), (KeyNumber, 4, 127), (ControllerNumber, 5, 127)]);
     // ---- KeyNumber (4)
     try_from_prims!(w, &mut r, nrand, KeyNumber, 4, [(u8, 0, true), (u16, 2, true), (i16, 3, true), (u32, 4, false), (i32, 5, false),
         (u64, 6, false), (i64, 7, false), (u128, 8, false), (i128, 9, false), (usize, 10, false), (isize, 11, false)]);
     to_prims!(w, KeyNumber, 4, 127, [(u8, 0), (i8, 1), (u16, 2), (i16, 3), (u32, 4), (i32, 5), (u64, 6), (i64, 7), (u128, 8), (i128, 9), (usize, 10), (isize, 11)]);
     nt_from!(w, KeyNumber, 4, U7, 1, 127);
     basics!(w, KeyNumber, 4, u8, 127, strs, mid);
+    probe_prims!(w, &mut r, nrand, KeyNumber, 4, [(i8, 1, true)]);
+    probe_newtypes!(w, KeyNumber, 4, [(U4, 0, 15), (U7, 1, 127), (U14, 2, 16383), (Channel, 3, 15), (ControllerNumber, 5, 127)]);
     // ---- ControllerNumber (5)
     try_from_prims!(w, &mut r, nrand, ControllerNumber, 5, [(u8, 0, true), (u16, 2, true), (i16, 3, true), (u32, 4, false), (i32, 5, false),
         (u64, 6, false), (i64, 7, false), (u128, 8, false), (i128, 9, false), (usize, 10, false), (isize, 11, false)]);
     to_prims!(w, ControllerNumber, 5, 127, [(u8, 0), (i8, 1), (u16, 2), (i16, 3), (u32, 4), (i32, 5), (u64, 6), (i64, 7), (u128, 8), (i128, 9), (usize, 10), (isize, 11)]);
     nt_from!(w, ControllerNumber, 5, U7, 1, 127);
     basics!(w, ControllerNumber, 5, u8, 127, strs, mid);
+    probe_prims!(w, &mut r, nrand, ControllerNumber, 5, [(i8, 1, true)]);
+    probe_newtypes!(w, ControllerNumber, 5, [(U4, 0, 15), (U7, 1, 127), (U14, 2, 16383), (Channel, 3, 15), (KeyNumber, 4, 127)]);
     w.finish()
 }
 
